@@ -5,7 +5,7 @@ import re
 import shutil
 import subprocess
 
-from ..core import Result, out_bytes, cli, scrub_env
+from ..core import crashed, Result, out_bytes, cli, scrub_env
 from .. import ser
 from ..val import clone
 
@@ -270,7 +270,7 @@ def check_case(ctx, case):
         for mode in ('v1', 'v2', 'absent'):
             o = run_cli(ctx, res, case, mode, strace=(mode == 'v1'))
             dirs.append(o['T'])
-            if o['rc'] not in (0, 1) or 'panic:' in o['stderr']:
+            if crashed(o['rc'], o['stderr']):
                 return res.violate('crash', 'bkl died rc=%s %s' % (o['rc'], o['stderr']), case=case)
             runs[mode] = (o['rc'], o['stdout'])
             if b'DECOY' in o['stdout']:
